@@ -68,6 +68,59 @@ let beyond_model cs =
   List.exists (fun c -> List.exists (fun z -> not (zle (zabs z) two61)) [c.M.lStart; c.M.lEnd; c.M.rStart; c.M.rEnd]) cs
 let refmt cs f = if beyond_model cs then "big" else hex (f ())
 
+(* ---- LA lines (round 6, harness/cmd/mdifffmttrace/round6.go): LA <ctx> <fi> <recipe> | <N> <U> <C> <chunks>.
+   Left and Right are NAMED by a recipe; the harness calls New [.AddContext(ctx).Unify()] itself when
+   the line runs and records the three renderings and the chunks.  The chunks are an observation (the
+   formatter model has no New): the driver reads the LA lines of its trace files once, [eval] renders
+   the RECORDED chunks with the formatter model (so the three texts are compared as on A lines), and
+   [spec] judges by the property alone -- the chunks must describe how Left becomes Right and every
+   rendering, applied to Left by the reference appliers, must give Right. *)
+let echo : (string, string) Hashtbl.t = Hashtbl.create 256
+let () =
+  Array.iteri (fun i f ->
+    if i > 0 && String.length f > 0 && f.[0] <> '-' && Sys.file_exists f && not (Sys.is_directory f) then begin
+      let ic = open_in f in
+      (try while true do
+        let line = input_line ic in
+        if String.length line > 3 && String.sub line 0 3 = "LA " then begin
+          let (inp, out) = split_line line in Hashtbl.replace echo inp out
+        end
+      done with End_of_file -> ());
+      close_in ic
+    end) Sys.argv
+
+exception Bad_recipe
+let line_of_int v = if v = 0 then [] else
+  let t = string_of_int v in List.init (String.length t) (fun i -> n_of_int (Char.code t.[i]))
+(* recipe -> (Left, Right); the language of harness/cmd/mdifftrace/scale.go *)
+let build_texts (recipe : string) =
+  let l = ref [] and r = ref [] and total = ref 0 in
+  let int_ s = match int_of_string_opt s with Some n when n >= 0 -> n | _ -> raise Bad_recipe in
+  if recipe <> "." then
+    List.iter (fun gs ->
+      let gs, reps = match String.index_opt gs '*' with
+        | Some i -> String.sub gs 0 i, int_ (String.sub gs (i + 1) (String.length gs - i - 1))
+        | None -> gs, 1 in
+      let items = List.map (fun is ->
+        if String.length is < 2 then raise Bad_recipe;
+        let kind = is.[0] in
+        if kind <> 'e' && kind <> 'd' && kind <> 'c' then raise Bad_recipe;
+        match List.map int_ (String.split_on_char '.' (String.sub is 1 (String.length is - 1))) with
+        | [c; p; o] when p >= 1 -> (kind, c, p, o, 1)
+        | [c; p; o; rl] when p >= 1 && rl >= 1 -> (kind, c, p, o, rl)
+        | _ -> raise Bad_recipe) (String.split_on_char '/' gs) in
+      for _ = 1 to reps do
+        List.iter (fun (kind, c, p, o, rl) ->
+          total := !total + c;
+          if !total > 40000 then raise Bad_recipe;
+          for j = 0 to c - 1 do
+            let t = line_of_int (o + (j / rl) mod p) in
+            if kind <> 'c' then l := t :: !l;
+            if kind <> 'd' then r := t :: !r
+          done) items
+      done) (String.split_on_char ',' recipe);
+  (List.rev !l, List.rev !r)
+
 (* ---- the model's prediction ---- *)
 let render v fi cs = (M.x_normal cs, M.x_unified v fi cs, M.x_context fi cs)
 
@@ -156,6 +209,16 @@ let eval_v v inp =
     let text = git_text v (triples rest) in
     hex text ^ " " ^ enc_patches (M.x_read_git v text)
   | ["Q"; pre; rk; fi; cs] -> eval_q v pre rk (dec_fi fi) (dec_chunks cs)
+  | ["LA"; _ctx; fi; _recipe] ->
+    (match Hashtbl.find_opt echo inp with
+     | None -> "NOT-REPLAYED"
+     | Some out ->
+       (match words out with
+        | [_; _; _; css] ->
+          (match (try Some (dec_chunks css) with _ -> None) with
+           | Some cs -> let (n, u, c) = render v (dec_fi fi) cs in String.concat " " [hex n; hex u; hex c; css]
+           | None -> "UNREADABLE-CHUNKS")
+        | _ -> "NO-CHUNKS-RECORDED"))
   | _ -> "?"
 
 (* ---- timestamps (Z lines) ----
@@ -174,8 +237,24 @@ let stamp_domain sec off =
 let eval_z sec nsec off =
   if sec = zero_sec && nsec = 0 then "zero" else if stamp_domain sec off then "same" else "lost"
 
+(* ZP lines (round 6, harness/cmd/mdifffmttrace/round6.go): TWO real times, one per side, under a
+   layout ("-": the default).  The headers must carry each side's own time as time.Format spells it
+   (the harness compares with the Go runtime: "hdr").  Under the default layout each side comes back
+   as on Z lines, judged on its own; re-formatting the patch read gives the text back byte for
+   byte iff every stamp that was written parses again: local year in 0..9999 and a zone below 25
+   hours (seconds of a zone and digits below the microsecond are cut by the WRITER: the text written
+   the second time is the same). *)
+let is_zero_time sec nsec = (sec = zero_sec && nsec = 0)
+let reparses sec nsec off =
+  is_zero_time sec nsec || (let local = sec + off in local >= year0 && local < year10000 && abs off < 90000)
+let eval_zp lay s1 n1 o1 s2 n2 o2 =
+  if lay <> "-" then "hdr - - -" else
+  String.concat " " ["hdr"; eval_z s1 n1 o1; eval_z s2 n2 o2; (if reparses s1 n1 o1 && reparses s2 n2 o2 then "same" else "diff")]
+
 let eval inp = match words inp with
   | ("V" | "W") :: _ -> "ok"
+  | ["ZP"; lay; s1; n1; o1; s2; n2; o2] ->
+    eval_zp lay (int_of_string s1) (int_of_string n1) (int_of_string o1) (int_of_string s2) (int_of_string n2) (int_of_string o2)
   | ["Z"; s; n; o] -> eval_z (int_of_string s) (int_of_string n) (int_of_string o)
   (* ZF (round 5): a real time under FileInfo.TimeFormat = a caller-chosen layout ("-": the field left
      empty).  The harness compares the two headers Unified and Context write with time.Format under
@@ -267,6 +346,35 @@ let spec_a inp out =
        Some (reason ^ (if known then " known=F6" else "")))
   | _ -> Some "bad output syntax"
 
+(* LA lines: the texts come from the recipe, the chunks from the implementation's own record *)
+let spec_la inp out =
+  match words inp, words out with
+  | ["LA"; _ctx; fis; recipe], [n; u; c; css] ->
+    (match (try Some (build_texts recipe) with Bad_recipe -> None), (try Some (dec_chunks css) with _ -> None) with
+     | None, _ -> None
+     | _, None -> Some "unreadable chunks in the record"
+     | Some (l, r), Some cs ->
+       if not (M.patch_okb l r cs) then
+         Some "the chunks New (AddContext, Unify) returned for the texts of the recipe do not describe how Left becomes Right (patch_ok fails)" else
+       (match apply_check "normal" M.x_apply_normal l r n with
+        | Some e -> Some e
+        | None ->
+        match apply_check "context" M.x_apply_context l r c with
+        | Some e -> Some e
+        | None ->
+        match apply_check "unified" M.x_apply_unified l r u with
+        | None -> None
+        | Some reason ->
+          let fi = dec_fi fis in
+          let known =
+            M.gen_facts_pinned && eval inp = out &&
+            M.x_apply_unified true l (M.x_unified only_f6 fi cs) = Some r in
+          Some (reason ^ (if known then " known=F6" else ""))))
+  | ["LA"; _; _; _], _ ->
+    if String.length out >= 6 && String.sub out 0 6 = "panic:" then Some "New, AddContext, Unify or a formatter panicked on the texts of the recipe"
+    else if out = "?" then None else Some "bad output syntax"
+  | _ -> Some "bad output syntax"
+
 let spec_g inp out =
   match words inp, words out with
   | "G" :: _ :: rest, [_text; res] ->
@@ -350,11 +458,15 @@ let well_formed inp =
       List.for_all (fun c -> ignore c.M.edits; true) (dec_chunks cs)
       && (rk = "n" || rk = "u" || rk = "g")
       && (try ignore (List.map (prelude_result M.pinned) (prelude_items pre)); true with Bad_prelude -> false)
+    | ["LA"; ctx; fi; recipe] -> ignore (dec_fi fi); int_of_string ctx >= 0 && (try ignore (build_texts recipe); true with Bad_recipe -> false)
     | ["V"; _; l; r; t] -> ignore (unhexs l); ignore (unhexs r); ignore (unhex t); true
     | ["W"; l; r; cs; _; _; _] -> ignore (unhexs l); ignore (unhexs r); ignore (dec_chunks cs); true
     | ["Z"; s; n; o] -> ignore (int_of_string s); ignore (int_of_string o); let n = int_of_string n in n >= 0 && n < 1000000000
     | ["ZF"; lay; s; n; o] -> if lay <> "-" then ignore (unhex lay); ignore (int_of_string s); ignore (int_of_string o);
       let n = int_of_string n in n >= 0 && n < 1000000000
+    | ["ZP"; lay; s1; n1; o1; s2; n2; o2] -> if lay <> "-" then ignore (unhex lay);
+      List.iter (fun x -> ignore (int_of_string x)) [s1; o1; s2; o2];
+      List.for_all (fun n -> let n = int_of_string n in n >= 0 && n < 1000000000) [n1; n2]
     | _ -> false)
   with _ -> false
 
@@ -388,12 +500,37 @@ let spec prop inp out =
   | ("V" | "W") :: _ -> spec_v inp
   | "D" :: _ -> spec_d inp out
   | "A" :: _ -> spec_a inp out
+  | "LA" :: _ -> spec_la inp out
   | "G" :: _ -> spec_g inp out
   | "Q" :: _ -> spec_q inp out
   | ["ZF"; _; s; n; _] ->
     let zero = (int_of_string s = zero_sec && int_of_string n = 0) in
     if out = (if zero then "zero" else "same") then None
     else Some "FileInfo.TimeFormat: the file headers Unified and Context write do not carry the time as time.Format spells it under the caller's layout (or under the default layout when the field is empty), or the body changed with the option"
+  | ["ZP"; lay; s1; n1; o1; s2; n2; o2] ->
+    (match words out with
+     | [hdr; l; r; re] ->
+       let s1 = int_of_string s1 and n1 = int_of_string n1 and o1 = int_of_string o1
+       and s2 = int_of_string s2 and n2 = int_of_string n2 and o2 = int_of_string o2 in
+       let side name s n o got =
+         if is_zero_time s n then (if got = "zero" then None else Some ("no " ^ name ^ " timestamp was given, yet one comes back"))
+         else if stamp_domain s o && got <> "same" then
+           Some ("the " ^ name ^ " timestamp (one the default TimeFormat can express) does not survive Unified -> ReadUnified/ReadGitPatch as the instant and zone it was given with, the other side's stamp being another time or the same instant in another zone")
+         else None in
+       if hdr <> "hdr" then
+         Some "the file headers Unified and Context write do not carry each side's OWN time as time.Format spells it under the layout in force (a zero time: no TAB part): e.g. one side's rendering re-used for the other side's time at the same instant in another zone"
+       else if lay <> "-" then None
+       else (match side "left" s1 n1 o1 l with
+         | Some e -> Some e
+         | None ->
+         match side "right" s2 n2 o2 r with
+         | Some e -> Some e
+         | None ->
+           let clean s n o = is_zero_time s n || stamp_domain s o in
+           if clean s1 n1 o1 && clean s2 n2 o2 && re <> "same" then
+             Some "re-formatting the patch read from the unified text (two header timestamps the default TimeFormat can express) changes the bytes"
+           else None)
+     | _ -> Some "bad output syntax")
   | ["Z"; s; n; o] ->
     (* the property: default-format timestamps survive (for the times the layout can express) *)
     let s = int_of_string s and n = int_of_string n and o = int_of_string o in
